@@ -11,7 +11,11 @@ GEN     Gen_Dnssec17 modes keytag / ds / nsec3 / cover / validity and Gen_KeyLif
         and salts of 0 / 8 octets).
         Key life: every behaviour x 9 generated algorithm/size combinations, two of them RSA sizes that are not a
         multiple of 8 (1031, 1028) (thorough: + fresh RSA 1025/1032/1100/2049/4088/4095/4096 and RSASHA1-NSEC3-SHA1);
-        an error or a panic of Generate is a finding (keylife/generate-fails|panics:<alg>/<bits>), never a harness crash and, for behaviours whose keys are all PROVIDED, x 9 committed RSA key-pair sets
+        an error or a panic of Generate is a finding (keylife/generate-fails|panics:<alg>/<bits>), never a harness crash
+        KEY-TAG COLLISIONS: for RSASHA256/1024, ED25519 and ECDSAP256 (thorough: + RSASHA1/2048, ECDSAP384) a second,
+        different, valid key pair is constructed whose DNSKEY has the same owner, algorithm and key tag as the first
+        (RSA: fresh modulus, exponent searched; EC/Ed: scalar / seed searched); all behaviours whose keys are provided
+        run on the pair in ONE process, so "A verifies, B does not" is asserted in both call orders and, for behaviours whose keys are all PROVIDED, x 9 committed RSA key-pair sets
         (harness/cmd/sec17/testdata: 1024, 1032, 2048, 4088, 4096 bits; exponents 3, 65537, 16777217; written by the
         harness' own BIND exporter from crypto/rsa keys, so the quick tier pays no key generation): import via
         NewPrivateKey/ReadPrivateKey, re-export and compare field by field, sign, verify, other key must fail
@@ -139,7 +143,7 @@ def run(ctx):
     return ctx.finish(rule="vectors: keytag = flags x protocol x algorithm x every key over {00,ff} up to 5 (thorough: 8) octets + keys of 255/256/257/1024 octets; "
                       "ds = 5 owners x 5 spellings (4 case variants + all-\\DDD upper case) x 7 digest types x 4 keys; nsec3 = 5 names (5 spellings each) x salts 0/1/8/255 x iterations {0,1,2,10,150,255,256,65534,65535}; "
                       "cover = 5^3 orderings x 7 zone/name pairs x owner-label case; validity = 11 instants x 2 epochs x 12^2 offsets; keylife = every behaviour "
-                      "ending in a verification x 9 generated algorithm/size combinations (+8 thorough) and x 9 committed RSA size/exponent sets where all keys are provided, + fresh-key round trips. events: seeded random. "
+                      "ending in a verification x 9 generated algorithm/size combinations (+8 thorough) and x 9 committed RSA size/exponent sets and x 3 (+2) key-tag-colliding pairs where all keys are provided, + fresh-key round trips. events: seeded random. "
                       "evaluations = every judged case (vectors per spelling / per algorithm, recorded events, second-stage hash and signature checks); distinct = distinct inputs, all non-trivial")
 
 
